@@ -60,7 +60,14 @@ type Duty struct {
 
 type Fire struct {
 	Slot       uint64   `json:"slot"`
-	Root       *uint64  `json:"root"` // nil: the head root request fails
+	Root       *uint64  `json:"root"` // what the node answers for block id "head"; nil: every root request fails
+	// SlotRoot: what the node answers when asked for the slot's NUMBER as block id: the root of the
+	// block proposed in the slot if it has one by now (the same as the head, or another root when the
+	// head has moved on); nil: no block (yet) in this slot, 404.
+	SlotRoot *uint64 `json:"slot_root,omitempty"`
+	// SelSlow: the selection signer answers only after the slot's message time has come; whatever
+	// message (and then aggregation) job exists by then runs first.
+	SelSlow    bool     `json:"sel_slow,omitempty"`
 	SelErr     bool     `json:"sel_err,omitempty"`
 	SelZero    []uint64 `json:"sel_zero,omitempty"`
 	Salt       uint64   `json:"salt"`
@@ -82,6 +89,7 @@ type Agg struct {
 	Accts      []uint64    `json:"accts"`
 	Cached     *uint64     `json:"cached"`
 	Head       *uint64     `json:"head"`
+	SlotRoot   *uint64     `json:"slot_root,omitempty"` // the node's answer for the slot's number; nil: 404
 	ContribErr []uint64    `json:"contrib_err,omitempty"`
 	CPErr      bool        `json:"cp_err,omitempty"`
 }
@@ -202,6 +210,8 @@ type env struct {
 	contribs     *[]contribObs
 	cpSignCalls  int
 	contribFetch int
+	asked        []string      // block ids the node was asked a root for
+	selPark      chan struct{} // a selection signer that has not answered yet (closed by the harness)
 }
 
 type rootCall struct {
@@ -310,18 +320,62 @@ func (e *env) SubmitSyncCommitteeSubscriptions(_ context.Context, subscriptions 
 	return nil
 }
 
-func (e *env) BeaconBlockRoot(_ context.Context, _ *api.BeaconBlockRootOpts) (*api.Response[*phase0.Root], error) {
-	var r *uint64
+// BeaconBlockRoot answers like a beacon node: "head" is the root of the most recent block, a slot
+// number is the root of the block proposed in that slot and 404 when the node has no block for it
+// (an empty slot, a block that has not arrived yet, a slot in the future), a root is itself when the
+// node knows the block.
+func (e *env) BeaconBlockRoot(_ context.Context, opts *api.BeaconBlockRootOpts) (*api.Response[*phase0.Root], error) {
+	var head, slotRoot *uint64
+	var slot uint64
 	switch {
 	case e.fire != nil:
-		r = e.fire.Root
+		head, slotRoot, slot = e.fire.Root, e.fire.SlotRoot, e.fire.Slot
 	case e.agg != nil:
-		r = e.agg.Head
+		head, slotRoot, slot = e.agg.Head, e.agg.SlotRoot, e.agg.Slot
 	}
-	if r == nil {
+	id := ""
+	if opts != nil {
+		id = opts.Block
+	}
+	e.mu.Lock()
+	e.asked = append(e.asked, id)
+	e.mu.Unlock()
+	if head == nil {
 		return nil, errors.New("scripted head root failure")
 	}
-	root := rootOf(*r)
+	notFound := &api.Error{Method: "GET", Endpoint: "/eth/v1/beacon/blocks/" + id + "/root", StatusCode: 404}
+	var r uint64
+	switch {
+	case id == "head":
+		r = *head
+	case id == "genesis":
+		r = 1 << 41
+	case id == "finalized" || id == "justified":
+		r = 1<<41 + 1
+	case len(id) > 2 && id[:2] == "0x":
+		known := false
+		for _, k := range []*uint64{head, slotRoot} {
+			if k != nil && fmt.Sprintf("%#x", rootOf(*k)) == id {
+				r, known = *k, true
+			}
+		}
+		if !known {
+			return nil, notFound
+		}
+	default:
+		n, err := strconv.ParseUint(id, 10, 64)
+		switch {
+		case err != nil:
+			return nil, &api.Error{Method: "GET", Endpoint: "/eth/v1/beacon/blocks/" + id + "/root", StatusCode: 400}
+		case n == slot && slotRoot != nil:
+			r = *slotRoot
+		case n < slot:
+			r = 1<<40 + n // the block of an earlier slot: never the head served in this slot
+		default:
+			return nil, notFound
+		}
+	}
+	root := rootOf(r)
 	return &api.Response[*phase0.Root]{Data: &root, Metadata: map[string]any{}}, nil
 }
 
@@ -339,7 +393,7 @@ func acctV(a e2wtypes.Account) *uint64 {
 
 // The signer answers like services/signer/standard for local accounts: a nil account anywhere in
 // the batch fails the batch; a per-account failure is a zero signature.
-func (e *env) SignSyncCommitteeSelections(_ context.Context, accounts []e2wtypes.Account, slot phase0.Slot, subcommitteeIndices []uint64) ([]phase0.BLSSignature, error) {
+func (e *env) SignSyncCommitteeSelections(ctx context.Context, accounts []e2wtypes.Account, slot phase0.Slot, subcommitteeIndices []uint64) ([]phase0.BLSSignature, error) {
 	call := make([][2]uint64, 0, len(accounts))
 	anyNil := false
 	for i, a := range accounts {
@@ -358,6 +412,18 @@ func (e *env) SignSyncCommitteeSelections(_ context.Context, accounts []e2wtypes
 		return call[i][1] < call[j][1]
 	})
 	e.selCall = &call
+	e.mu.Lock()
+	park := e.selPark
+	e.mu.Unlock()
+	if park != nil {
+		// a slow (remote) signer: the answer comes when the harness lets it, or not at all when the
+		// request is cancelled
+		select {
+		case <-park:
+		case <-ctx.Done():
+			return nil, ctx.Err()
+		}
+	}
 	if anyNil || len(accounts) != len(subcommitteeIndices) {
 		return nil, errors.New("account is nil; cannot sign")
 	}
@@ -463,6 +529,10 @@ func (e *env) SubmitSyncCommitteeMessages(_ context.Context, messages []*altair.
 	terms := make([]string, 0, len(ms))
 	for _, m := range ms {
 		terms = append(terms, msgTerm(m))
+	}
+	if e.submitted != nil {
+		// a second submission for the same slot: both payloads (no member may message twice)
+		terms = append(append([]string{}, *e.submitted...), terms...)
 	}
 	e.submitted = &terms
 	e.submittedN = len(terms)
@@ -730,6 +800,13 @@ func runCase(t *testing.T, in *Input) (obs observed) {
 
 // fireSlot runs the jobs of one slot in turn, as the scheduler would when their times arrive:
 // prepare (during the previous slot), message, aggregation.
+//
+// With f.SelSlow the selection signer does not answer the prepare job's request until the slot's
+// message time has come: the prepare job is run in a goroutine of its own, and once it waits for the
+// signer the harness runs whatever message job the scheduler holds for the slot by then (its time has
+// come, or a block event fast-tracks it) and whatever aggregation job that leaves; only then the
+// signer answers, and the chain goes on with the jobs that exist afterwards.  A job is one-off: it
+// runs once, so what ran early does not run again.
 func fireSlot(ctx context.Context, e *env, ct *mocks.ChainTime, sched *mocks.RecScheduler, f *Fire, mid func(), midStage int) fireObs {
 	e.fire = f
 	e.selCall, e.rootCall, e.submitted, e.contribs = nil, nil, nil, nil
@@ -737,7 +814,64 @@ func fireSlot(ctx context.Context, e *env, ct *mocks.ChainTime, sched *mocks.Rec
 	if f.Slot > 0 {
 		ct.SetSlot(f.Slot - 1)
 	}
-	prepared := sched.Fire(ctx, jobName(0, f.Slot))
+	// the slot's message job and what follows it
+	runMessage := func(j *mocks.Job, midAllowed bool) {
+		tm := int64(j.Time.Sub(ct.Genesis))
+		fo.MsgJob = &tm
+		ct.SetSlot(f.Slot)
+		sched.Fire(ctx, jobName(1, f.Slot))
+		synctest.Wait() // the aggregation time is seconds away: whatever the job started has settled by then
+		if e.rootCall != nil {
+			fo.RootCall = &rootCallObs{Accts: e.rootCall.accts, Epoch: e.rootCall.epoch, Root: e.rootCall.root}
+		}
+		fo.Submitted = e.submitted
+		aggJob, ok := sched.Get(jobName(2, f.Slot))
+		if midAllowed && mid != nil && midStage == 2 {
+			// ... or between its message job and its aggregation job
+			mid()
+			e.fire = f
+			mid = nil
+		}
+		if j := aggJob; ok {
+			tm := int64(j.Time.Sub(ct.Genesis))
+			fo.AggJob = &tm
+			sched.Fire(ctx, jobName(2, f.Slot))
+			fo.Contribs = e.contribs
+			fo.ContribsS = contribTerms(e.contribs)
+		}
+	}
+	var prepared bool
+	if f.SelSlow && mid == nil {
+		park := make(chan struct{})
+		e.mu.Lock()
+		e.selPark = park
+		e.mu.Unlock()
+		done := make(chan bool, 1)
+		go func() {
+			defer func() {
+				if r := recover(); r != nil {
+					done <- false
+				}
+			}()
+			done <- sched.Fire(ctx, jobName(0, f.Slot))
+		}()
+		synctest.Wait()
+		// the prepare job has ended or waits for the signer; the message time of the slot comes
+		if j, ok := sched.Get(jobName(1, f.Slot)); ok {
+			runMessage(j, false)
+		}
+		e.mu.Lock()
+		e.selPark = nil
+		e.mu.Unlock()
+		close(park)
+		prepared = <-done
+		synctest.Wait()
+	} else {
+		prepared = sched.Fire(ctx, jobName(0, f.Slot))
+		// a signer that answers at once: the message time is more than a slot away, and whatever the
+		// prepare job started has settled by then
+		synctest.Wait()
+	}
 	var msgJob *mocks.Job
 	if prepared {
 		msgJob, _ = sched.Get(jobName(1, f.Slot))
@@ -750,28 +884,7 @@ func fireSlot(ctx context.Context, e *env, ct *mocks.ChainTime, sched *mocks.Rec
 	if prepared {
 		fo.SelCall = e.selCall
 		if j := msgJob; j != nil {
-			tm := int64(j.Time.Sub(ct.Genesis))
-			fo.MsgJob = &tm
-			ct.SetSlot(f.Slot)
-			sched.Fire(ctx, jobName(1, f.Slot))
-			if e.rootCall != nil {
-				fo.RootCall = &rootCallObs{Accts: e.rootCall.accts, Epoch: e.rootCall.epoch, Root: e.rootCall.root}
-			}
-			fo.Submitted = e.submitted
-			aggJob, ok := sched.Get(jobName(2, f.Slot))
-			if mid != nil && midStage == 2 {
-				// ... or between its message job and its aggregation job
-				mid()
-				e.fire = f
-				mid = nil
-			}
-			if j := aggJob; ok {
-				tm := int64(j.Time.Sub(ct.Genesis))
-				fo.AggJob = &tm
-				sched.Fire(ctx, jobName(2, f.Slot))
-				fo.Contribs = e.contribs
-				fo.ContribsS = contribTerms(e.contribs)
-			}
+			runMessage(j, true)
 		}
 	}
 	if mid != nil && midStage == 2 {
@@ -846,7 +959,7 @@ func fireInTerm(in *Input, f *Fire) string {
 			}
 		}
 	}
-	return Record("f_slot", N(f.Slot), "f_root", OptN(f.Root), "f_sel_err", Bool(f.SelErr), "f_sel_zero", listN(f.SelZero),
+	return Record("f_slot", N(f.Slot), "f_root", OptN(f.Root), "f_slot_root", OptN(f.SlotRoot), "f_sel_slow", Bool(f.SelSlow), "f_sel_err", Bool(f.SelErr), "f_sel_zero", listN(f.SelZero),
 		"f_hash8", List(table), "f_root_err", Bool(f.RootErr), "f_root_zero", listN(f.RootZero),
 		"f_submit_err", Bool(f.SubmitErr), "f_contrib_err", listN(f.ContribErr), "f_cp_err", Bool(f.CPErr))
 }
@@ -922,7 +1035,7 @@ func term(id uint64, in *Input, obs *observed) string {
 			ms = append(ms, Pair(N(m.V), listN(m.Subcs)))
 		}
 		ain := Record("a_slot", N(a.Slot), "a_aggs", List(ms), "a_accts", listN(a.Accts), "a_cached", OptN(a.Cached),
-			"a_head", OptN(a.Head), "a_contrib_err", listN(a.ContribErr), "a_cp_err", Bool(a.CPErr))
+			"a_head", OptN(a.Head), "a_slot_root", OptN(a.SlotRoot), "a_contrib_err", listN(a.ContribErr), "a_cp_err", Bool(a.CPErr))
 		agg = Some(Pair(ain, optList(obs.Agg)))
 	}
 	hist, hobs := histTerms(in, obs)
@@ -1278,6 +1391,25 @@ func genFire(r *Rand, p Params, s uint64, vs []uint64, duties []Duty, tag func(s
 		f.Root = nil
 		tag("fault:head-root")
 	}
+	// the block of the slot itself, as the node has it when the message job runs: none in one slot
+	// out of two (a missed or late proposal; the usual case at StartOfSlot + delay without fast
+	// track); otherwise it is the head, or the head has already moved on
+	switch x := r.Intn(6); {
+	case f.Root == nil || x < 3:
+		tag("slot:no-block")
+	case x < 5:
+		sr := root
+		f.SlotRoot = &sr
+		tag("slot:block-is-head")
+	default:
+		sr := root + 1000
+		f.SlotRoot = &sr
+		tag("slot:head-moved-on")
+	}
+	if r.Chance(1, 4) {
+		f.SelSlow = true
+		tag("slow:selection-signer")
+	}
 	if r.Chance(1, 25) {
 		f.SelErr = true
 		tag("fault:selection-signer")
@@ -1385,6 +1517,18 @@ func genAgg(r *Rand) Input {
 	if r.Chance(9, 10) {
 		h := uint64(r.Range(1001, 2000))
 		a.Head = &h
+		switch x := r.Intn(6); {
+		case x < 3:
+			in.Tags = append(in.Tags, "slot:no-block")
+		case x < 5:
+			sr := h
+			a.SlotRoot = &sr
+			in.Tags = append(in.Tags, "slot:block-is-head")
+		default:
+			sr := h + 1000
+			a.SlotRoot = &sr
+			in.Tags = append(in.Tags, "slot:head-moved-on")
+		}
 	}
 	if r.Chance(1, 10) {
 		a.ContribErr = append(a.ContribErr, uint64(r.Intn(int(p.Subnets))))
